@@ -188,6 +188,16 @@ func lockOp(in ssa.Instruction) (field *types.Var, isLock bool, ok bool) {
 	}
 	fv := loadedField(cc.Args[0])
 	if fv == nil {
+		if gl, ok := cc.Args[0].(*ssa.Global); ok {
+			if v, ok := gl.Object().(*types.Var); ok {
+				if _, named := lockOwner[v]; !named && v.Pkg() != nil {
+					lockOwner[v] = v.Pkg().Name()
+				}
+				return v, isLock, true
+			}
+		}
+	}
+	if fv == nil {
 		return nil, isLock, true // a lock op on an unidentified mutex
 	}
 	return fv, isLock, true
